@@ -105,6 +105,92 @@ def unit(job, variant, pi, seed, length):
     return out
 
 
+def runtime_unit(job, variant, seed, length):
+    """the same law on the OTHER public way of running a simulation: `EngineBuilder.build_simulation_runtime()` with
+    `runtime.play(action)`, `runtime.save()` and `runtime.load(checkpoint)`.  Checkpoints are taken between any two
+    actions -- the first one BEFORE the first action, when the store does not hold the callback cell yet -- and restored
+    later, after further actions were played on the abandoned time line."""
+    import copy
+    from simaple.container.simulation import get_skill_components
+    from simaple.simulate.base import RouterDispatcher
+    from simaple.simulate.kms import get_builder
+    rng = random.Random(f"C05:runtime:{seed}:{job}:{variant}")
+    out = {"plays": 0, "events": 0, "restores": 0, "failing": [], "listened": 0, "max_queue": 0}
+    # the actions of a generated plan, as the handlers of the operation engine produce them
+    eng = simlib.make_engine(job, variant)
+    actions = []
+    for c in random_plan(rng, job, variant, length, with_console=False):
+        for pl in eng.exec(c).playlogs:
+            actions.append(copy.deepcopy(dict(pl.action)))
+    env = simlib.make_env(job, variant)
+    state = {"depth": 0, "cur": None}
+
+    class Probe:
+        def __call__(self, action, store):
+            if state["cur"] is not None and state["depth"] == 1:
+                state["cur"].append(copy.deepcopy(dict(action)))
+            return []
+
+        def includes(self, signature):
+            return True
+
+        def init_store(self, store):
+            return
+
+    class DepthRouter(RouterDispatcher):
+        def __call__(self, action, store):
+            state["depth"] += 1
+            try:
+                return RouterDispatcher.__call__(self, action, store)
+            finally:
+                state["depth"] -= 1
+
+    builder = get_builder(get_skill_components(env), env.character.action_stat)
+    builder.add_dispatcher(Probe())
+    builder._router.__class__ = DepthRouter        # noqa: SLF001 -- depth of re-entrant router calls only
+    rt = builder.build_simulation_runtime()
+    saved = [(rt.save(), [])]                       # (checkpoint, the events that are pending at that point)
+    prev = []
+    done = []
+    for i, a in enumerate(actions):
+        r = rng.random()
+        if r < 0.15 or i == 1 or i == 3:
+            ck_, ev = saved[0] if i in (1, 3) else rng.choice(saved)
+            if rng.random() < 0.5:
+                from simaple.simulate.base import Checkpoint
+                ck_ = Checkpoint.model_validate_json(ck_.model_dump_json())
+            rt.load(ck_)
+            prev = ev
+            out["restores"] += 1
+            done.append(f"<load checkpoint taken after {len(ev)} pending events>")
+        elif r < 0.3:
+            saved.append((rt.save(), copy.deepcopy(prev)))
+            done.append("<save>")
+        state["cur"] = []
+        events = rt.play(copy.deepcopy(a))
+        got, state["cur"] = state["cur"], None
+        done.append(f"{a['name']}.{a['method']}")
+        out["plays"] += 1
+        out["events"] += len(events)
+        out["max_queue"] = max(out["max_queue"], len(got))
+        want = [emitted_of(e) for e in reversed(prev)] + [a] + [done_of(e) for e in prev]
+        if got != want:
+            extra = [x for x in got if x not in want]
+            missing = [x for x in want if x not in got]
+            out["failing"].append({"kind": "relay", "job": job, "variant": variant, "api": "SimulationRuntime.play/save/load",
+                                   "what": "the actions dispatched around a play are not: emitted(previous events) reversed, "
+                                           "the action, done(previous events)",
+                                   "ops": done, "not_expected": extra[:3], "missing": missing[:3],
+                                   "expected_count": len(want), "dispatched_count": len(got)})
+            break
+        prev = copy.deepcopy(events)
+    return out
+
+
+def any_unit(kind, args):
+    return runtime_unit(*args) if kind == "runtime" else unit(*args)
+
+
 def main(ck: Check):
     quick = ck.tier == "quick"
     variants = [0] if quick else [0, 1, 2]
@@ -114,7 +200,8 @@ def main(ck: Check):
     work = [(job, v, pi, ck.seed, rng.randint(*length)) for job in JOBS for v in variants for pi in range(plans_per)]
     tot = {"plays": 0, "events": 0, "restores": 0, "listened": 0, "max_queue": 0}
     samples, reqs, expect = [], [], []
-    for args, out in pmap(unit, work, ck.budget_s * 0.7):
+    work_rt = [(job, 0, ck.seed + k, 25 if quick else 60) for job in JOBS for k in range(1 if quick else 6)]
+    for args, out in pmap(any_unit, [("engine", a) for a in work] + [("runtime", a) for a in work_rt], ck.budget_s * 0.7):
         if args is None:
             ck.notes.append(f"budget reached: {out}")
             if out["done"] < max(4, out["total"] // 2):
@@ -125,10 +212,10 @@ def main(ck: Check):
         tot["max_queue"] = max(tot["max_queue"], out["max_queue"])
         for f in out["failing"]:
             ck.add_failing(f)
-        if len(samples) < 3 and out["sample"]:
+        if len(samples) < 3 and out.get("sample"):
             samples.append(out["sample"])
-        reqs.extend(out["reqs"])
-        expect.extend(out["expect"])
+        reqs.extend(out.get("reqs", []))
+        expect.extend(out.get("expect", []))
 
     with ck.locked():
         proved = ck.prove("Simaple.Props.C05")
@@ -150,7 +237,9 @@ def main(ck: Check):
                 "EngineBuilder.add_dispatcher) records every action the router dispatches; per play the top-level "
                 "dispatched actions must be exactly: emitted(E) reversed, the action, done(E) for the events E of the "
                 "previous play (payloads included); checkpoint/restore (reload of the recorded logs, half through JSON) "
-                "is injected before ~20% of the commands. evaluations = plays; distinct_nontrivial = relayed events",
+                "is injected before ~20% of the commands; + per job the actions of a plan played on a SimulationRuntime "
+                "(runtime.play / save / load) with checkpoints taken between any two actions, also before the first one, and "
+                "restored after further actions. evaluations = plays; distinct_nontrivial = relayed events",
         "samples": samples,
         **tot,
         "model_queue_requests": len(reqs),
